@@ -67,7 +67,14 @@ fn emit_attach(out: &mut Out, case: &Sx) {
     let rec = LogRecorder { log: log.clone(), counters: Default::default(), queue_len: Default::default() };
     let (q, j) = BackgroundQueueBuilder::new().capacity(cap).flush_interval(Duration::from_millis(20))
         .metrics_recorder_local::<dyn metrics::Recorder, _>(rec).build_boxed(stream);
-    let handle = C05Global::attach((q, j));
+    let handle = match crate::common::catch(|| C05Global::attach((q, j))) {
+        Some(h) => h,
+        None => {
+            out.fail("attach panicked: the sink of an earlier case is still attached although its AttachHandle was dropped".into(), case);
+            out.case(case, &Sx::L(vec![Sx::L(vec![])]), true);
+            return;
+        }
+    };
     for i in 0..before {
         C05Global::append(Ent { thread: 1, seq: i, dropped: None });
     }
@@ -95,6 +102,108 @@ fn emit_attach(out: &mut Out, case: &Sx) {
     out.case(case, &imp, before > 0);
 }
 
+/// tag 5: (5 cap before racers held): like tag 4, but the AttachHandle is dropped while `racers` threads keep calling
+/// `try_append`, and (held = 1) while one more thread is stopped *inside* `try_append` — at the queue's first
+/// synchronisation point, i.e. under the global sink's read lock — until the drop has had time to start.
+fn emit_attach_race(out: &mut Out, case: &Sx) {
+    use metrique_writer::sink::background_verif as bv;
+    attach(false);
+    let (cap, before, racers, held) = (case.arg(0).num() as usize, case.arg(1).num() as u64, case.arg(2).num() as u64, case.arg(3).num() != 0);
+    let log: Log = Arc::new(Mutex::new(vec![]));
+    let stream = RecStream { log: log.clone(), script: Script::default(), gate: None, flush_calls: 0, before_call: None };
+    let rec = LogRecorder { log: log.clone(), counters: Default::default(), queue_len: Default::default() };
+    let (q, j) = BackgroundQueueBuilder::new().capacity(cap).flush_interval(Duration::from_millis(5))
+        .metrics_recorder_local::<dyn metrics::Recorder, _>(rec).build_boxed(stream);
+    let handle = match crate::common::catch(|| C05Global::attach((q, j))) {
+        Some(h) => h,
+        None => {
+            out.fail("attach panicked: the sink of an earlier case is still attached although its AttachHandle was dropped".into(), case);
+            out.case(case, &Sx::L(vec![Sx::L(vec![]), Sx::L(vec![])]), true);
+            return;
+        }
+    };
+    for i in 0..before {
+        C05Global::append(Ent { thread: 1, seq: i, dropped: None });
+    }
+    // (arrived, released)
+    let gate = Arc::new((Mutex::new((false, false)), std::sync::Condvar::new()));
+    if held {
+        let g = gate.clone();
+        bv::install(Some(Arc::new(move |name: &'static str, _| {
+            if name == "push.force" && std::thread::current().name() == Some("c05-held") {
+                let (m, cv) = &*g;
+                let mut st = m.lock().unwrap();
+                st.0 = true;
+                cv.notify_all();
+                while !st.1 {
+                    st = cv.wait(st).unwrap();
+                }
+            }
+        })));
+    }
+    let stop = Arc::new(std::sync::atomic::AtomicBool::new(false));
+    let mut at_return = vec![];
+    let mut took = Duration::ZERO;
+    std::thread::scope(|sc| {
+        if held {
+            std::thread::Builder::new().name("c05-held".into()).spawn_scoped(sc, || {
+                let _ = C05Global::try_append(Ent { thread: 2, seq: 0, dropped: None });
+            }).unwrap();
+            let (m, cv) = &*gate;
+            let mut st = m.lock().unwrap();
+            let lim = Instant::now() + Duration::from_secs(5);
+            while !st.0 && Instant::now() < lim {
+                st = cv.wait_timeout(st, Duration::from_millis(50)).unwrap().0;
+            }
+        }
+        for t in 0..racers {
+            let stop = stop.clone();
+            sc.spawn(move || {
+                let mut i = 0;
+                while !stop.load(Ordering::SeqCst) && i < 200_000 {
+                    let _ = C05Global::try_append(Ent { thread: 3 + t, seq: i, dropped: None });
+                    i += 1;
+                    if i % 64 == 0 { std::thread::yield_now(); }
+                }
+            });
+        }
+        if racers > 0 {
+            std::thread::sleep(Duration::from_micros(300));
+        }
+        let dropper = sc.spawn(|| {
+            let t0 = Instant::now();
+            drop(handle);
+            (t0.elapsed(), log.lock().unwrap().clone())
+        });
+        if held {
+            // give the drop time to start (on the code as it should be it now waits for the held appender)
+            std::thread::sleep(Duration::from_millis(10));
+            let (m, cv) = &*gate;
+            m.lock().unwrap().1 = true;
+            cv.notify_all();
+        }
+        let (t, l) = dropper.join().unwrap();
+        took = t;
+        at_return = l;
+        stop.store(true, Ordering::SeqCst);
+    });
+    if held {
+        bv::install(None);
+    }
+    std::thread::sleep(Duration::from_millis(2));
+    let events = log.lock().unwrap().clone();
+    if at_return.last() != Some(&Ev::DropStream) {
+        out.fail("drop(AttachHandle) returned before the stream was dropped (appenders were inside try_append)".into(), case);
+    }
+    if took > Duration::from_secs(10) {
+        out.fail(format!("drop(AttachHandle) took {:?}", took), case);
+    }
+    let imp = Sx::L(vec![Sx::L(events.iter().map(|e| e.sx()).collect()), Sx::L(at_return.iter().map(|e| e.sx()).collect())]);
+    out.count("attach_handle_race_runs");
+    if held { out.count("attach_handle_race_runs_with_held_appender"); }
+    out.case(case, &imp, true);
+}
+
 pub fn run(ctx: &Ctx) {
     let mut s = Out::new(ctx, "-s");
     let mut u = Out::new(ctx, "-u");
@@ -107,6 +216,8 @@ pub fn run(ctx: &Ctx) {
                 emit_forget(&mut u, &sx::parse(line));
             } else if line.starts_with("(4 ") {
                 emit_attach(&mut u, &sx::parse(line));
+            } else if line.starts_with("(5 ") {
+                emit_attach_race(&mut u, &sx::parse(line));
             } else {
                 replay_line(&mut u, line, &mut rng);
             }
@@ -161,6 +272,12 @@ pub fn run(ctx: &Ctx) {
             let before = *rng.pick(&[0u64, 1, 5, 50]);
             let case = sx::tag(4, vec![sx::n(*rng.pick(&[1u64, 4, 64])), sx::n(before), sx::n(rng.below(4))]);
             emit_attach(&mut u, &case);
+        }
+        for _ in 0..n_attach / 2 {
+            let held = rng.chance(1, 2);
+            let racers = if held { rng.below(3) } else { rng.range(1, 4) };
+            let case = sx::tag(5, vec![sx::n(*rng.pick(&[4u64, 64, 1000])), sx::n(*rng.pick(&[0u64, 5, 50])), sx::n(racers), sx::boolean(held)]);
+            emit_attach_race(&mut u, &case);
         }
     }
     s.finish("scheduled: plans with clone / drop-clone / forget / drop-handle operations at random places (drop of the join handle in the \
